@@ -2,6 +2,7 @@ package main
 
 import (
 	"fmt"
+	"golang.org/x/tools/go/ssa"
 	"strings"
 )
 
@@ -20,7 +21,7 @@ func proveLemma(P *Program, name, dir string, timeout int, cross bool) (solverAn
 		return solverAnswer{}, "", fmt.Errorf("lemma %s not found", name)
 	}
 	g := &gen{P: P, fs: &FuncSpec{}, c: newSmtCtx(target.Strings), name: "lemma", oblNames: map[string]int{}, allVars: map[string]string{},
-		used: map[string]bool{}, snapNames: map[string]bool{}, localCell: map[string]string{}, fieldRefs: map[string]*fieldAccess{}}
+		used: map[string]bool{}, snapNames: map[string]bool{}, localCell: map[string]string{}, fieldRefs: map[string]*fieldAccess{}, finalVals: map[*ssa.FreeVar]Val{}}
 	st := &State{m: map[string]string{}}
 	var facts []string
 	for _, ax := range before {
